@@ -7,6 +7,7 @@ import ast
 from ..core import Ctx, RuleResult, finding, short, walk_no_nested
 from ..model import AnalysisError, norm
 from ..rules import exc, kind, prog
+from ..rules import lookahead
 from ..rules.exc import ExcEngine
 from ..rules.util import callee_name, calls_in, cfg_of, node_exprs, nodes_where
 from ..tables import C15_BOUNDARY_OK, C15_INFEASIBLE
@@ -21,6 +22,7 @@ EXPLANATION = (
     ' Added after seed round 3: (11) every path through push_cursor stores is_rotten_cursor; (12) the reverse and forward arms of linefeed test mirrored comparisons.'
     ' Round 4: C15.4 follows locals bound to a grid row (`line = self.term[y]`); (13) every scroll decision of linefeed / push_cursor compares the row with the scroll-region margin.'
     ' Round-4 triage: (14) scroll / IL / DL pop before they insert and IL / DL return outside the scrolling region; (15) erase calls pass inclusive cursor coordinates; (16) the canvas cursor is built from constrained coordinates; (17) counting loops driven by an escape-sequence parameter are clamped with min() first; (18) SGR state: csi_set_attr() undoes exactly the colour adjustment sgi_to_attrspec() applies (bold->bright, foreground only) and no SGR parameter is interpreted by fixed position; (19) lines leaving the scrollback are cut / padded to the current width and shortening the scrollback re-clamps scrolling_up. Round 5: (18) the undo also repeats the colour-depth test of the mapping; (20) no slice bound of TermCanvas is an unclamped difference of runtime quantities. Round-5 triage: (13, sharpened) the region scrolls under equality with the margin, in push_cursor as in linefeed; (21) SHADOW - no loop target clobbers a live local; (22) the fixed-length palette sequence is complete with the 7th buffered character; (23) ED corners ignore the scrolling margins.'
+    ' Round 6: (24) BOUND: every look-ahead read L[i + k] in vterm.py is covered by a length test i + m < len(L) with m >= k (earlier operand of the same `and`, or a dominating test): SGR 38;5 / 38;2 with the parameters cut short must not raise IndexError.'
 )
 NOT_DECIDED = (
     "Index-bounds safety of every self.term[y][x] access (IndexError is outside the exception model; only the clamp discipline is decided), width normalisation of rows returned "
@@ -595,7 +597,7 @@ def rule_cursor_constrained(ctx: Ctx) -> RuleResult:
     from ..rules.defuse import DefUse
 
     p = ctx.p
-    rr = RuleResult("POSBOUND", "C15.16", "TermCanvas.set_term_cursor builds the canvas cursor from the constrained coordinates", floor=1)
+    rr = RuleResult("POSBOUND", "C15.16", "TermCanvas.set_term_cursor builds the canvas cursor from the constrained coordinates, under a test that its row is < height", floor=2)
     fi = p.func(f"{VT}.TermCanvas.set_term_cursor")
     du = DefUse(fi)
     for node in du.cfg.nodes:
@@ -608,6 +610,37 @@ def rule_cursor_constrained(ctx: Ctx) -> RuleResult:
                 if raw:
                     rr.add(finding("POSBOUND", fi, a, f"`{norm(a, 50)}` uses `{nm.id}` as it was passed in (or defaulted), not the value constrain_coords() clamped it to: after a cursor movement beyond the grid (CSI 500 C) the canvas reports a cursor outside itself", construct=f"canvas cursor from unconstrained {nm.id}"))
                     break
+            # the stored row R (scrolled-back view: y + scrolling_up) is a row of the canvas: the store is made under
+            # a test equivalent to R < height (half-open) - R <= height publishes a cursor one row below the grid
+            from ..rules.exc import ExcEngine
+            from ..rules.runpos import _atoms
+            from ..rules.util import lin_str, linear
+
+            row = linear(a.value.elts[1]) if len(a.value.elts) == 2 else None
+            if row is None:
+                continue
+            facts = []
+            for t in du.cfg.nodes:
+                if t.kind == "test" and node not in ExcEngine._reach_without_edge(du.cfg, t, "T"):
+                    facts += _atoms(t.ast, True)
+            height_atoms = [k for e, _o in facts for k in e if k.endswith(".height") or k == "height"]
+            ok = False
+            for e, o in facts:
+                for sign, op in ((1, o), (-1, {"<": ">", "<=": ">=", ">": "<", ">=": "<=", "==": "==", "!=": "!="}[o])):
+                    es = {k: v * sign for k, v in e.items()}
+                    for hgt in set(height_atoms):
+                        want = dict(row)
+                        want[hgt] = want.get(hgt, 0) - 1
+                        want = {k: v for k, v in want.items() if v}
+                        if es == want and op == "<":
+                            ok = True
+                        want1 = dict(want)
+                        want1[""] = want1.get("", 0) + 1
+                        if es == {k: v for k, v in want1.items() if v} and op == "<=":
+                            ok = True
+            rr.inst(f"{norm(a, 40)}: row inside the canvas", True, {"row": lin_str(row), "facts": [f"{lin_str(e)} {o} 0" for e, o in facts][:6], "half_open": ok})
+            if not ok:
+                rr.add(finding("POSBOUND", fi, a, f"`{norm(a, 50)}` publishes row `{ast.unparse(a.value.elts[1])}` as the canvas cursor without a test equivalent to `{ast.unparse(a.value.elts[1])} < height` on the way (known: {', '.join(f'{lin_str(e)} {o} 0' for e, o in facts) or 'nothing'}): scrolled back by exactly height - y lines the cursor is reported one row below the grid while content() still yields height rows", construct="canvas cursor row not shown inside the canvas"))
     return rr
 
 
@@ -859,6 +892,7 @@ def run(ctx: Ctx):
         rule_shadowed_locals(ctx),
         rule_osc_palette_length(ctx),
         rule_erase_display_absolute(ctx),
+        lookahead.run_lookahead(p, "C15.24", [VT], floor=4),
     ]
     return out
 
@@ -867,6 +901,12 @@ from ..mutants import Mut  # noqa: E402
 
 _V = "urwid/vterm.py"
 MUTANTS = [
+    Mut("scrollback-cursor-closed-bound", _V, "TermCanvas.set_term_cursor", "self.scrolling_up < self.height - y:", "y + self.scrolling_up <= self.height:", "POSBOUND|vterm.TermCanvas.set_term_cursor|canvas cursor row not shown inside the canvas"),
+    Mut("twin-scrollback-cursor-sum-form", _V, "TermCanvas.set_term_cursor", "self.scrolling_up < self.height - y:", "y + self.scrolling_up < self.height:", twin=True),
+    Mut("twin-scrollback-cursor-le-minus-one", _V, "TermCanvas.set_term_cursor", "self.scrolling_up < self.height - y:", "y + self.scrolling_up <= self.height - 1:", twin=True),
+    Mut("sgr-256-lookahead-short-guard", _V, "TermCanvas.sgi_to_attrspec", "if idx + 2 < len(attrs) and attrs[idx + 1] == 5:", "if idx + 1 < len(attrs) and attrs[idx + 1] == 5:", "BOUND|vterm.TermCanvas.sgi_to_attrspec|look-ahead attrs[idx + 2] beyond the length test"),
+    Mut("sgr-rgb-lookahead-short-guard", _V, "TermCanvas.sgi_to_attrspec", "elif idx + 4 < len(attrs) and attrs[idx + 1] == 2:", "elif idx + 3 < len(attrs) and attrs[idx + 1] == 2:", "BOUND|vterm.TermCanvas.sgi_to_attrspec|look-ahead attrs[idx + 4] beyond the length test"),
+    Mut("twin-sgr-guard-len-first", _V, "TermCanvas.sgi_to_attrspec", "if idx + 2 < len(attrs) and attrs[idx + 1] == 5:", "if len(attrs) > idx + 2 and attrs[idx + 1] == 5:", twin=True),
     Mut("resize-loop-variable-clobbers-cursor-row", _V, "TermCanvas.resize", "            for row in range(self.height):\n                self.term[row] += [self.empty_char()] * (width - self.width)", "            for y in range(self.height):\n                self.term[y] += [self.empty_char()] * (width - self.width)", "SHADOW|vterm.TermCanvas.resize"),
     Mut("autowrap-scrolls-from-below-the-region", _V, "TermCanvas.push_cursor", "                    if y >= self.height - 1 > self.scrollregion_end:\n                        pass\n                    elif y == self.scrollregion_end:\n                        self.scroll()", "                    if y >= self.scrollregion_end:\n                        self.scroll()", "SIB|vterm.TermCanvas.push_cursor|scroll decided by an inequality"),
     Mut("palette-sequence-one-late", _V, "TermCanvas.parse_escape", "len(self.escbuf) == 7:", "len(self.escbuf) == 8:", "BOUND|vterm.TermCanvas.parse_escape"),
